@@ -1,6 +1,7 @@
 import JanetModel.Wait.EpochCount
 import JanetModel.Wait.RoundRN
 import JanetModel.Gen.Wait
+import JanetModel.Gen.WaitCb
 /-
 C07 — a suspended fiber is resumed only by what it is currently waiting for.
 
@@ -524,6 +525,145 @@ example : ∀ e ∈ (run Cfg.full init
 example :
     ((run Cfg.full init [.procFlag 0 true, .spawn 1, .run, .procWait 1 0, .procExit 0 7, .run]).log.map
       (fun e => (e.fiber, e.epochAtRun, e.task.regEpoch, e.task.value))) = [(1, 1, 1, procErrVal 7), (1, 0, 0, .nil)] := by decide
+
+/-! ### Listener callbacks as regenerated case tables (Wait/Callback.lean, Gen/WaitCb.lean)
+
+`Gen.WaitCb.callbacks` holds one case table per function of src/core/*.c with the signature `(JanetFiber *, JanetAsyncEvent)`
+(ev_callback_read, ev_callback_write, net_callback_connect, net_callback_accept, filewatch's watcher_callback_read), regenerated
+from the preprocessed source on every run.  An invocation `cb(fiber, e)` performs some sequence of the calls in `cb.reach e`. -/
+section Callbacks
+open JanetModel.Wait.Callback JanetModel.Gen.WaitCb
+
+/-- the certificate all callback theorems rest on, re-checked by the kernel on every regeneration: the visited sets are closed, and
+the only calls reachable from `case JANET_ASYNC_EVENT_MARK` / `_DEINIT` are janet_mark* -/
+theorem callback_tables_closed : ∀ cb ∈ callbacks, ∀ e ∈ Ev.all, cb.closedFor e = true := by decide
+
+/-- ★ A mark visit resumes nobody.  The collector calls `fiber->ev_callback(fiber, JANET_ASYNC_EVENT_MARK)` for every suspended
+fiber that listens on a stream (gc.c janet_mark_fiber — the only delivery of MARK, first conjunct).  For every listener callback
+of the tree and every execution of it on MARK, the world is unchanged: no fiber is scheduled or cancelled, no generation moves, no
+listener is detached, no task is queued — a garbage collection during a wait neither completes nor abandons the wait.
+(Before e480e68 net_callback_connect had MARK fall to `default:` and ran its SO_ERROR check: `decide` fails on that tree.) -/
+theorem mark_visit_resumes_nobody :
+    (∀ d ∈ deliveries, d.2.2 = Ev.mark → d.1 = "gc.c" ∧ d.2.1 = "janet_mark_fiber") ∧
+    ∀ cb ∈ callbacks, ∀ xs : List (Act × Inst), (∀ x ∈ xs, x.1 ∈ cb.reach .mark) →
+      ∀ (cfg : Cfg) (w : World) (f : Nat), applyActs cfg w f xs = w := by
+  refine ⟨by decide, ?_⟩
+  intro cb hcb xs hxs cfg w f
+  have hq : ∀ cb ∈ callbacks, ∀ a ∈ cb.reach .mark, a.quiet = true := by decide
+  exact applyActs_quiet cfg f xs (fun x hx => hq cb hcb x.1 (hxs x hx)) w
+
+/-- ★ Tearing a listener down resumes nobody.  `janet_async_end` (reached from janet_fiber_did_resume when the fiber was resumed by
+something else: timeout, deadline, cancel) delivers JANET_ASYNC_EVENT_DEINIT to the callback of the abandoned wait — the only
+delivery of DEINIT; no callback schedules, cancels or ends anything on it. -/
+theorem deinit_resumes_nobody :
+    (∀ d ∈ deliveries, d.2.2 = Ev.deinit → d.1 = "ev.c" ∧ d.2.1 = "janet_async_end") ∧
+    ∀ cb ∈ callbacks, ∀ xs : List (Act × Inst), (∀ x ∈ xs, x.1 ∈ cb.reach .deinit) →
+      ∀ (cfg : Cfg) (w : World) (f : Nat), applyActs cfg w f xs = w := by
+  refine ⟨by decide, ?_⟩
+  intro cb hcb xs hxs cfg w f
+  have hq : ∀ cb ∈ callbacks, ∀ a ∈ cb.reach .deinit, a.quiet = true := by decide
+  exact applyActs_quiet cfg f xs (fun x hx => hq cb hcb x.1 (hxs x hx)) w
+
+/-- ★ A listener callback wakes only the fiber that listens.  Every callback that is ever registered is one of the tables
+(`registrations`), every wake-relevant call in every table is one the model knows (no call with a foreign fiber, no call of an
+unanalysed function that wakes), and for every event and every execution: a fiber `h` other than the listener `f` and the handler
+fibers the callback has just created (net/accept-loop) keeps its generation, flags and listener, and its tasks in the run queue
+are exactly what they were.  The one call that reaches other fibers is filewatch's `janet_channel_give` = `superPush`, the give
+covered by `supervisor_event_not_consumed_by_absent_waiter` / `stale_inert (1)`. -/
+theorem listener_callback_wakes_only_its_fiber :
+    (∀ r ∈ registrations, (r.2.1 = "janet_async_start" ∧ r.2.2 = "callback") ∨ ∃ cb ∈ callbacks, cb.name = r.2.2) ∧
+    (∀ cb ∈ callbacks, ∀ e ∈ Ev.all, ∀ a ∈ cb.reach e, a.known = true) ∧
+    (∀ cb ∈ callbacks, ∀ e : Ev, ∀ xs : List (Act × Inst), (∀ x ∈ xs, x.1 ∈ cb.reach e) → (∀ x ∈ xs, x.1 ≠ .chanGive) →
+      ∀ (cfg : Cfg) (w : World) (f h : Nat), h ≠ f → (∀ x ∈ xs, x.2.fresh ≠ h) →
+        (applyActs cfg w f xs).fibers h = w.fibers h ∧ tasksOf (applyActs cfg w f xs) h = tasksOf w h) ∧
+    (∀ (cfg : Cfg) (w : World) (f : Nat) (i : Inst), applyAct cfg w f .chanGive i = superPush cfg w i.chan i.val) := by
+  refine ⟨by decide, by decide, ?_, fun _ _ _ _ => rfl⟩
+  intro cb hcb e xs hxs hng cfg w f h hne hfresh
+  have hk : ∀ cb ∈ callbacks, ∀ e ∈ Ev.all, ∀ a ∈ cb.reach e, a.known = true := by decide
+  refine applyActs_own_frame cfg f h hne xs ?_ hfresh w
+  intro x hx
+  have h1 := hk cb hcb e (Ev.mem_all e) x.1 (hxs x hx)
+  have h2 := hng x hx
+  cases hxa : x.1 with
+  | schedule t => cases t <;> simp [Act.known, Act.own, hxa] at h1 ⊢
+  | cancel t => cases t <;> simp [Act.known, Act.own, hxa] at h1 ⊢
+  | asyncEnd t => cases t <;> simp [Act.known, Act.own, hxa] at h1 ⊢
+  | mark => rfl
+  | chanGive => exact absurd hxa h2
+  | callsWaker => simp [Act.known, hxa] at h1
+
+/-- non-vacuity: the tables are not empty — a readable pipe does complete ev_callback_read's wait (schedule + detach), accept
+schedules a handler fiber, and the MARK group of every callback is reached and marks -/
+example : (Act.schedule .self) ∈ cb_ev_callback_read.reach .read ∧ (Act.asyncEnd .self) ∈ cb_ev_callback_read.reach .read ∧
+    (Act.schedule .fresh) ∈ cb_net_callback_accept.reach .read ∧ (Act.schedule .self) ∈ cb_net_callback_connect.reach .write ∧
+    Act.mark ∈ cb_ev_callback_read.reach .mark ∧ cb_net_callback_connect.reach .mark = [] ∧ callbacks.length = 5 := by decide
+
+/-- non-vacuity of the frame: an execution of accept's READ group that schedules handler fiber 9 and completes listener 1 leaves
+fiber 2 (blocked elsewhere) untouched but does queue tasks for 9 and 1 -/
+example :
+    let w0 := run Cfg.full init [.spawn 1, .spawn 2, .run, .run, .asyncStart 1 0 true, .take 2 0 false]
+    let w := applyActs Cfg.full w0 1 [(.schedule .fresh, { fresh := 9 }), (.schedule .self, { val := .int 5 }), (.asyncEnd .self, {})]
+    w.fibers 2 = w0.fibers 2 ∧ (w.queue.map (·.fiber)) = [9, 1] ∧ (w.fibers 1).listener = none := by decide
+
+/-- ★ wake-up site completeness, as a kernel-checked certificate.  `Gen.WaitCb.sites` lists every janet_schedule /
+janet_schedule_soon / janet_schedule_signal / janet_cancel call of ev.c, net.c, os.c, filewatch.c and io.c (all #ifdef branches)
+with its enclosing function; `classify` (Lean, Wait/Callback.lean) maps each to a `SiteClass` — an unclassified site makes this
+theorem fail.  What the model proves about each class is `siteCoverage` / `every_site_class_covered` below. -/
+theorem every_wake_site_classified : ∀ s ∈ sites, (classify s).isSome = true := by decide
+
+/-- what is proved about a class of wake-up sites -/
+inductive Coverage where
+  | proved (p : Prop)            -- the class is a wake-up source of a WAIT: `p` is what makes its stale registrations inert
+  | notAWait (why : String)      -- the class does not complete a wait
+
+def siteCoverage (cfg : Cfg) : SiteClass → Coverage
+  | .chanGive => .proved (∀ w f c x ch e rest, (w.chans c).rp = e :: rest → live w e.fiber e.schedId = false →
+        chanPush cfg w f c x ch = chanPush cfg { w with chans := set w.chans c { (w.chans c) with rp := rest } } f c x ch)
+  | .chanTake => .proved (∀ w c items e rest, (w.chans c).wp = e :: rest → live w e.fiber e.schedId = false →
+        chanPopWake cfg w c items = chanPopWake cfg { w with chans := set w.chans c { (w.chans c) with wp := rest } } c items)
+  | .chanClose => .proved (∀ w c e, live w e.fiber e.schedId = false → closeOne cfg c w e = w)
+  | .timers => .proved ((∀ w (tm : Timer), (∀ b, tm.kind ≠ .deadline b) → live w tm.fiber tm.schedId = false → fireTimer cfg w tm = w) ∧
+        (∀ w (tm : Timer) b, tm.kind = .deadline b → w.bodies b = false → fireTimer cfg w tm = w))
+  | .procWait => .proved (∀ w k st f g, w.procs k = some (f, g) → live w f g = false →
+        (procExit cfg w k st).fibers = w.fibers ∧ (procExit cfg w k st).queue = w.queue)
+  | .threadedAwait => .proved (∀ w k f g v e, w.thr k = some (f, g) → live w f g = false →
+        (thrDone cfg w k v e).fibers = w.fibers ∧ (thrDone cfg w k v e).queue = w.queue)
+  | .listenerCallback => .proved ((∀ w s r v e f, (if r then (w.streams s).readFiber else (w.streams s).writeFiber) = some f →
+        (w.fibers f).listener = none → streamEvent cfg w s r v e = w) ∧
+        (∀ cb ∈ callbacks, ∀ e ∈ Ev.all, ∀ a ∈ cb.reach e, a.known = true))
+  | .chanImmediate => .notAWait "janet_channel_pop / cfun_channel_pop: the running fiber schedules ITSELF with an item that is already there"
+  | .threadChan => .notAWait "threaded channels: property C08 (janet_thread_chan_cb compares the generation carried in the message)"
+  | .rescheduleInterrupted => .notAWait "janet_loop puts an interrupted task back: no wait is completed"
+  | .request => .notAWait "ev/go, ev/cancel, ev/thread: an explicit request of the program (ops `spawn` / `cancel` of the model: cancellation is a permitted cause)"
+  | .signalHandler => .notAWait "os/sigaction: the handler runs in a fresh fiber, no suspended fiber is resumed"
+
+def Coverage.holds : Coverage → Prop
+  | .proved p => p
+  | .notAWait _ => True
+
+/-- ★ every class of wake-up site is covered: for each class that completes a wait, a stale registration of that class is inert -/
+theorem every_site_class_covered (cfg : Cfg) (hc : cfg.allChecked = true) : ∀ c : SiteClass, (siteCoverage cfg c).holds := by
+  intro c
+  cases c with
+  | chanGive => intro w; exact (stale_inert cfg hc w).1
+  | chanTake => intro w; exact (stale_inert cfg hc w).2.1
+  | chanClose => intro w; exact (stale_inert cfg hc w).2.2.1
+  | timers =>
+    exact ⟨fun w => (stale_inert cfg hc w).2.2.2.1, fun w tm b hk hb => (deadline_scoped cfg hc w tm b hk).1 hb⟩
+  | procWait => intro w; exact (stale_inert cfg hc w).2.2.2.2.1
+  | threadedAwait => intro w k f g v e hk hst; exact stale_thread_completion_inert cfg hc w k f g v e hk hst
+  | listenerCallback => exact ⟨fun w => (stale_inert cfg hc w).2.2.2.2.2, listener_callback_wakes_only_its_fiber.2.1⟩
+  | chanImmediate => trivial
+  | threadChan => trivial
+  | rescheduleInterrupted => trivial
+  | request => trivial
+  | signalHandler => trivial
+
+/-- non-vacuity: the site list is the tree's (≥ 60 calls), every class that completes a wait occurs in it -/
+example : sites.length ≥ 60 ∧ (∀ c ∈ [SiteClass.listenerCallback, .chanGive, .chanTake, .chanClose, .timers, .threadedAwait, .procWait],
+    ∃ s ∈ sites, classify s = some c) := by decide
+
+end Callbacks
 
 /-! ### Non-vacuity -/
 
